@@ -183,7 +183,7 @@ type builder struct {
 }
 
 func (b *builder) trace(shape [][][]int, variant int) Trace {
-	t := Trace{Style: variant % 2}
+	t := Trace{Style: variant % 3}
 	for ki, blocks := range shape {
 		k := Kernel{Header: defHeader((variant+ki)%2, len(blocks))}
 		k.Header.ID += int32(ki) * int32(1-(variant+ki)%2)
